@@ -11,6 +11,9 @@
 //verif:stub fmt.Sprint -> rt.Sprint
 //verif:stub (crypto/x509/pkix.Name).String -> rt.StubNameString
 //verif:stub net/url.Parse -> rt.StubURLParse
+//verif:stub context.WithCancel -> rt.StubWithCancel
+//verif:stub context.WithTimeout -> rt.StubWithTimeout
+//verif:stub context.WithDeadline -> rt.StubWithDeadline
 //verif:merge (time.Time).Before
 //verif:merge (time.Time).After
 //verif:merge (time.Time).Equal
@@ -25,6 +28,7 @@
 package zzverifrt
 
 import (
+	"context"
 	"net/url"
 	"crypto/x509/pkix"
 	"encoding/asn1"
@@ -229,6 +233,74 @@ func StubURLParse(raw string) (*url.URL, error) {
 		return nil, NewEnvError("url")
 	}
 	return Havoc[*url.URL](n), nil
+}
+
+// ---- derived contexts. context.WithCancel & co. are modelled by a small cancel context: it is done once its cancel
+// function ran or its parent says so; a deadline is the environment's business (the derived context of WithTimeout /
+// WithDeadline may additionally report "deadline exceeded" at any call, like EnvContext).
+type envCancelCtx struct {
+	parent    context.Context
+	cancelled bool
+	byFunc    bool // cancelled through its cancel function (as opposed to a deadline or the parent)
+	timed     bool
+	tag       string
+	ch        chan struct{}
+}
+
+// ErrCanceled stands for context.Canceled / context.DeadlineExceeded (the package-level errors of context are not
+// initialised in the executor)
+func ErrCanceled() error { return &EnvError{Tag: "context canceled"} }
+
+func (c *envCancelCtx) Deadline() (time.Time, bool) { return c.parent.Deadline() }
+func (c *envCancelCtx) Done() <-chan struct{}       { return c.ch }
+func (c *envCancelCtx) Value(key any) any           { return c.parent.Value(key) }
+func (c *envCancelCtx) Err() error {
+	if c.cancelled {
+		return ErrCanceled()
+	}
+	if c.timed && Choose(Name(c.tag+".deadline.exceeded"), 2) == 1 {
+		c.cancelled = true
+		close(c.ch)
+		return ErrCanceled()
+	}
+	return c.parent.Err()
+}
+func newCancelCtx(parent context.Context, timed bool) (context.Context, context.CancelFunc) {
+	if parent == nil {
+		panic("cannot create context from nil parent")
+	}
+	c := &envCancelCtx{parent: parent, timed: timed, tag: Name("ctx"), ch: make(chan struct{})}
+	return c, func() {
+		c.byFunc = true
+		if !c.cancelled {
+			c.cancelled = true
+			close(c.ch)
+		}
+	}
+}
+// CancelledByCancelFunc reports whether ctx, or an ancestor of it created by the stubs above, has been cancelled through
+// its cancel function - i.e. by the code under test itself, not by a deadline and not by the caller's context.
+func CancelledByCancelFunc(ctx context.Context) bool {
+	for {
+		c, ok := ctx.(*envCancelCtx)
+		if !ok {
+			return false
+		}
+		if c.byFunc {
+			return true
+		}
+		ctx = c.parent
+	}
+}
+
+func StubWithCancel(parent context.Context) (context.Context, context.CancelFunc) {
+	return newCancelCtx(parent, false)
+}
+func StubWithTimeout(parent context.Context, d time.Duration) (context.Context, context.CancelFunc) {
+	return newCancelCtx(parent, true)
+}
+func StubWithDeadline(parent context.Context, t time.Time) (context.Context, context.CancelFunc) {
+	return newCancelCtx(parent, true)
 }
 
 // EnvContext is a caller-supplied context in an arbitrary state: Err() answers nil or a cancellation error, independently
